@@ -3,6 +3,7 @@ CONSTANT R = 1
 CONSTANT P2Origin = TRUE
 CONSTANT Impl = "v2"
 CONSTANT M1Order = "n1_x_b2"
+CONSTANT Slice = FALSE
 INVARIANT TypeOK
 INVARIANT UndefinedIffDegenerate
 INVARIANT V2ExactlyNegated
